@@ -3097,13 +3097,14 @@ func backoffDelay(faults int64, initialDelay, maxDelay time.Duration) time.Durat
 	}
 
 	// a single shift can still wrap around for larger initial delays
-	// (e.g. 100ms << 40); a wrapped value is negative or huge, both clamp
-	delay := initialDelay << uint(shift)
-	if delay <= 0 || delay > maxDelay {
+	// (e.g. 100ms << 40), and a wrapped value is not always negative or huge:
+	// it can land back inside (0, maxDelay]. Compare against maxDelay >> shift,
+	// which cannot overflow, instead of inspecting the shifted value.
+	if initialDelay > maxDelay>>uint(shift) {
 		return maxDelay
 	}
 
-	return delay
+	return initialDelay << uint(shift)
 }
 
 // childAddress returns the address of the given child actor provided the name
